@@ -329,7 +329,8 @@ def join_store(ctx, fn, field):
         if p.exit_kind != "return":
             continue
         st = [e for e in p.events if e["kind"] == "write" and self_field(e) == field and e["how"] == "store"]
-        idx = [e["args"][1] for e in p.events if e["kind"] == "write" and self_field(e) == field and e["how"] == "borrow" and e.get("name") == "index_mut"]
+        idx = [e["args"][1] for e in p.events if e["kind"] == "write" and self_field(e) == field and e["how"] == "borrow" and e.get("name") == "index_mut"
+               and not (e["args"][1][0] == "adt" and e["args"][1][1] == "std::ops::RangeFull")]        # `&mut self.f[..]` is a view, not a cell
         facts = {repr(c): t for c, t in pe.path_facts(p)}
         per_path.append((st, idx, facts))
         for e in st:
@@ -639,3 +640,65 @@ def full_reservoir_facts(facts, selfp=("param", 1, "self")):
         if c2 != c:
             out.append((c2, t))
     return out
+
+
+def gap_window_lemma(ctx, adt="reservoirsampling::ReservoirSampling", bound="4k"):
+    """Inductive invariant of the sampler:   skip_until <= i   or   i >= 4k      (hence  i < skip_until  implies  i >= 4k >= k).
+    With bound="k" the weaker  skip_until <= i  or  i >= k  (all that the length clause needs) is established instead.
+
+    Base: every construction site starts skip_until at 0 (or copies an existing sampler).  Step, over every returning path of every
+    method with a self receiver: a store to skip_until is the constant 0 or lies on a path of add that refutes i < 4k (i at entry;
+    i only grows from there and k is fixed, so the second disjunct keeps holding whatever is stored); a store to i is i + 1, or 0 on a
+    path that also stores 0 to skip_until; k is never written.  Anything else (a write through a borrow, another value) -> not
+    established.  Returns (ok, why)."""
+    from ..paths import PathEnumerator
+    from ..guards import fv
+    from ..terms import TermBuilder, mk, const, fmt
+    prog = ctx.prog
+    selfp = ("param", 1, "self")
+    i_f, k_f = ("field", selfp, "i"), ("field", selfp, "k")
+    res_phase = mk("Lt", i_f, mk("Mul", const(4), k_f)) if bound == "4k" else mk("Lt", i_f, k_f)
+    if "k" not in config_fields(ctx, adt):
+        return False, "k is written by a method"
+    n_sites = 0
+    for f in prog.fns.values():
+        for bi, blk in enumerate(f.blocks):
+            if blk.cleanup:
+                continue
+            for si, st in enumerate(blk.stmts):
+                if st.k == "assign" and st.rv.k == "aggregate" and st.rv.j.get("adt") == adt:
+                    n_sites += 1
+                    d = dict(TermBuilder(f, prog).rvalue(st.rv, bi, si)[3])
+                    s, i = d.get("skip_until"), d.get("i")
+                    copied = s is not None and i is not None and s[0] == "field" and s[2] == "skip_until" and i[0] == "field" and i[2] == "i" and s[1] == i[1]
+                    if not (s == const(0) or copied):
+                        return False, "%s builds a sampler with skip_until = %s" % (f.key, fmt(s) if s else "?")
+    if n_sites == 0:
+        return False, "no construction site found"
+    own = {m.key for m in methods_of(prog, adt) if has_self_receiver(m)}
+    for m in methods_of(prog, adt):
+        if not has_self_receiver(m) or m.impl_derived:
+            continue
+        pe = PathEnumerator(m, prog, ctx.summ)
+        for p in pe.paths():
+            if p.exit_kind != "return":
+                continue
+            # (writes made inside another method of the type that was expanded in place are judged in that method's own turn)
+            ws = [e for e in p.events if e["kind"] == "write" and e["root"] == SELF and self_field(e) in ("i", "skip_until")
+                  and not (e.get("origin_fn") != m.key and e.get("origin_fn") in own)]
+            if not ws:
+                continue
+            fd = {repr(c): t for c, t in pe.path_facts(p)}
+            zero_s = any(self_field(e) == "skip_until" and e["how"] == "store" and e.get("value") == const(0) for e in ws)
+            for e in ws:
+                if e["how"] != "store" or e.get("value") is None or len(e["path"]) != 1:
+                    return False, "%s modifies `%s` other than by a plain store" % (m.name, self_field(e))
+                v = e["value"]
+                if self_field(e) == "skip_until":
+                    if v == const(0) or (m.name == "add" and fv(fd, res_phase) is False):
+                        continue
+                    return False, "%s stores %s to skip_until on a path that does not establish i >= %s" % (m.name, fmt(v)[:80], bound)
+                if v == mk("Add", i_f, const(1)) or (v == const(0) and zero_s) or (v[0] == "op" and v[1] == "Add" and i_f in v[2]):      # usize: i + anything only grows
+                    continue
+                return False, "%s stores %s to i" % (m.name, fmt(v)[:80])
+    return True, "skip_until <= i or i >= %s is inductive (constructors start at 0; drawn gaps are stored only when i >= %s; i only grows or is reset together with skip_until)" % (bound, bound)
